@@ -8,6 +8,10 @@ import Memterm.Props.C12
 import Memterm.Props.C14
 import Memterm.Props.C15
 import Memterm.Props.C16
+import Memterm.Props.C17
+import Memterm.Props.C19
+import Memterm.Props.C01
+import Memterm.Props.C10
 
 /-
   Executable property predicates, evaluated by the driver on the
@@ -17,7 +21,7 @@ import Memterm.Props.C16
 namespace Memterm
 
 /-- (property id, what failed) for every predicate in scope of `c` that is false. -/
-def propFailures (_env : Env) (cands : List Nat) (pre : Screen) (c : Call) (post : Screen) :
+def propFailures (env : Env) (cands : List Nat) (pre : Screen) (c : Call) (post : Screen) :
     List (String × String) :=
   (if C05.propC05 cands pre c post then [] else
     [("C05", s!"expected cursor {repr (C05.expected pre c)}, got ({post.cursor.x},{post.cursor.y}), or something other than the cursor position changed")]) ++
@@ -38,6 +42,14 @@ def propFailures (_env : Env) (cands : List Nat) (pre : Screen) (c : Call) (post
   (if C15.propC15 cands pre c post then [] else
     [("C15", "state after reset differs from the power-on state of a screen of the current size")]) ++
   (if C16.propC16 cands pre c post then [] else
-    [("C16", s!"state after resize differs from the documented outcome ({post.columns}x{post.lines}, cursor=({post.cursor.x},{post.cursor.y}), margins {repr post.margins})")])
+    [("C16", s!"state after resize differs from the documented outcome ({post.columns}x{post.lines}, cursor=({post.cursor.x},{post.cursor.y}), margins {repr post.margins})")]) ++
+  (if C04.propC04 env cands pre c post then [] else
+    [("C04", s!"cells / cursor after draw differ from the documented rendering, or a setting changed (cursor=({post.cursor.x},{post.cursor.y}))")]) ++
+  (if C17.propC17 pre c post then [] else
+    [("C17", s!"after {c.name} a changed row is not in the dirty set, an earlier mark was lost, a screen-wide change did not mark every row, or a dirty index is not a row")]) ++
+  (if C19.propC19 cands pre c post then [] else
+    [("C19", s!"{c.name} changed something other than the title / icon name, or did not store exactly its argument")]) ++
+  (if C20.propC20 env cands pre c post then [] else
+    [("C20", s!"{c.name}: drawn cells / charset state differ from the published tables and designators")])
 
 end Memterm
